@@ -59,3 +59,35 @@ Proof.
   exists (mkLenError 28 8 LsSlice LyArp 0).
   split; [vm_compute; reflexivity|]. split; discriminate.
 Qed.
+
+(* ---- the struct decoders (PacketHeaders) ------------------------------------
+   Whenever PacketHeaders rejects, its error record is the one strict slicing
+   reports for the same bytes (C04_headers_eq_slices: same verdict and record as
+   slicing cut at a refilled extension header; a rejecting cut variant is plain
+   slicing), hence truthful in the same sense.  For the bare-IP entry the class
+   F11 (first nibble 4 and fewer than 20 bytes: sibling decoders describe the
+   cut-short first header differently, each truthfully) is excluded. *)
+From EP Require Import Parse.HdrModel Parse.HdrProofs3 Parse.HdrErrTruth.
+
+Theorem C07_headers_errors_are_slicing_errors : forall bs et, bytes_ok bs ->
+  (forall e, PacketHeaders.from_ethernet_slice bs = Err e -> SlicedPacket.from_ethernet bs = Err e) /\
+  (forall e, PacketHeaders.from_ether_type et bs = Err e -> SlicedPacket.from_ether_type et bs = Err e) /\
+  (F11 bs = false ->
+   forall e, PacketHeaders.from_ip_slice bs = Err e -> SlicedPacket.from_ip bs = Err e).
+Proof. exact headers_errors_are_slicing_errors. Qed.
+Print Assumptions C07_headers_errors_are_slicing_errors.
+
+Theorem C07_headers : forall bs et, bytes_ok bs ->
+  (forall e, PacketHeaders.from_ethernet_slice bs = Err e -> c07_truthful (VErr e) (wire_ethernet bs)) /\
+  (forall e, PacketHeaders.from_ether_type et bs = Err e -> c07_truthful (VErr e) (wire_ether_type bs et)) /\
+  (F11 bs = false ->
+   forall e, PacketHeaders.from_ip_slice bs = Err e -> c07_truthful (VErr e) (wire_from_ip bs)).
+Proof. exact headers_errors_truthful. Qed.
+Print Assumptions C07_headers.
+
+(* non-vacuity: the F9 situation (MACsec short length 4 + trailing bytes, VLAN cut
+   short behind it) through the struct decoder: offset 8, not 10 *)
+Example C07_headers_ex :
+  PacketHeaders.from_ether_type 35045 [0;4;0;0;0;1; 129;0; 1;2; 170;187;204;221]
+  = Err (ELen (mkLenError 4 2 LsSlice LyVlanHeader 8)).
+Proof. vm_compute; reflexivity. Qed.
